@@ -41,8 +41,12 @@ f("numpy.linalg.tensorinv", arrays=("a",), result={"a": -1})
 f("numpy.linalg.pinv", arrays=("a",), result={"a": -1})
 f("numpy.linalg.svd", arrays=("a",), flags={"compute_uv": [True, False]},
   result=("special", "svd"))            # (u, s, vh): s has degree 1, u/vh bare; s alone if not compute_uv
-f("numpy.histogram", arrays=("a",), result=("special", "histogram"))
-f("numpy.histogram2d", arrays=("x", "y"), result=("special", "histogram2d"))
+f("numpy.histogram", arrays=("a",), result=("special", "histogram"),
+  flags={"density": [None, True], "weights": [None, "array"], "range": [None]})
+# counts: a number per bin; with weights= the sum of the weights; with density=True divided by the bin
+# area, i.e. by the units of every coordinate that carries units (a bare coordinate is a pure number)
+f("numpy.histogram2d", arrays=("x", "y"), result=("special", "histogram2d"),
+  flags={"density": [None, True], "weights": [None, "array"], "y": ["array", "bare"], "range": [None]})
 f("numpy.histogramdd", seqs=("sample",), result=("special", "histogramdd"))
 f("numpy.histogram_bin_edges", arrays=("a",), result=same("a"))
 for n, p in {"concatenate": "arrays", "vstack": "tup", "hstack": "tup", "dstack": "tup",
